@@ -203,12 +203,10 @@ func c23Run(c *core.Ctx, raw json.RawMessage) {
 	d := &hxDriver{s: s}
 	view := &hxView{s: s}
 	d.After = []func(){view.observe}
-	ldr := hxSettle(d, view, 30*time.Second)
-	if ldr == nil || !execOn(s, ldr, "CREATE TABLE q (id INTEGER PRIMARY KEY AUTOINCREMENT, n INTEGER, c INTEGER, r INTEGER, s INTEGER)") {
+	if !hxSetup(d, view, "CREATE TABLE IF NOT EXISTS q (id INTEGER PRIMARY KEY AUTOINCREMENT, n INTEGER, c INTEGER, r INTEGER, s INTEGER)") {
 		c.Discard("schema-failed")
 		return
 	}
-	hxSettle(d, view, 30*time.Second)
 	addrIdx := map[string]int{}
 	for i := 1; i <= sc.Nodes; i++ {
 		addrIdx[s.Nodes[i].HTTPAddr] = i
@@ -482,8 +480,7 @@ func c23Run(c *core.Ctx, raw json.RawMessage) {
 		c.Log.Add("queues did not drain within 240 simulated seconds after heal")
 	}
 	d.runFor(2 * time.Second)
-	ldr = hxSettle(d, view, 60*time.Second)
-	if ldr == nil {
+	if hxSettle(d, view, 60*time.Second) == nil {
 		c.Discard("no-leader-after-settle")
 		return
 	}
